@@ -321,7 +321,17 @@ class Properties(Container):
         # Check the properties
         # ------------------------------------------------------------
         if ignore_fill_value:
-            ignore_properties += ("_FillValue", "missing_value")
+            # Do not modify the caller's object, and allow for
+            # ignore_properties being None or a single name
+            if not ignore_properties:
+                ignore_properties = ()
+            elif isinstance(ignore_properties, str):
+                ignore_properties = (ignore_properties,)
+
+            ignore_properties = tuple(ignore_properties) + (
+                "_FillValue",
+                "missing_value",
+            )
 
         self_properties = self.properties()
         other_properties = other.properties()
